@@ -1335,41 +1335,26 @@ CHECKERS = {
 }
 
 
-def _er_ref_lens(case):
-    rep = {a: b for a, b in case.get("replace") or []}
-    ign = set(case.get("ignore") or [])
-    return [len([x for x in r if rep.get(x, x) not in ign]) for _, r, _ in case["utts"]]
-
-
 FINDINGS = [
     {"id": "KF-C17-1", "property": "C17", "clause": "C17.cli.roundtrip",
      "what": "torch-token-data-dir-to-textgrids ignores --precision (and its own tier-type decision): it calls write_textgrid with a path, which re-enters without point_tier/precision "
              "(same root as KF-C11-1); with a raw-sample frame shift (< 1 ms) times are rounded to 1 ms = many frames and interval tiers come back as point tiers",
      "class": "TextGrid round trip with --precision other than 3 and --frame-shift-ms below 1 (three decimals of a second cannot resolve one frame)",
      "witness": {"kind": "tg", "prefix": "", "suffix": ".pt", "shift": 0.0625, "precision": 6, "fmt": "short", "utts": [["a", "IntervalTier", [["a", 0, 0.125]], 0.125]]}},
-    {"id": "KF-C17-2", "property": "C17", "clause": "C17.cli.roundtrip",
-     "what": "textgrids-to-torch-token-data-dir loses the last entry of every tier but the last one of a multi-tier TextGrid in Praat's short text form "
-             "(_textgrid.py splits tiers at '\"<label>\"\\n\"<next tier class>\"', taking the previous tier's last label for a tier header)",
-     "class": "short-text-form TextGrid with more than one tier, extracted tier is not the last tier of the file",
-     "witness": {"kind": "tg", "prefix": "", "suffix": ".pt", "shift": None, "fmt": "short", "fill": False, "tg_suffix": None, "tier_sel": ["idx", 0], "length": "infer",
-                 "utts": [["a", "IntervalTier", [["a", 0, 20.0]], 20.0]]}},
-    {"id": "KF-C17-3", "property": "C17", "clause": "C17.cli.error_rate",
-     "what": "compute-torch-token-data-dir-error-rates raises ZeroDivisionError when printing the total rate if any single reference is empty (after --replace/--ignore), "
-             "because the per-utterance quotient is computed even when it is not printed",
-     "class": "neither --per-utt nor --distances, some reference transcript has length 0 after replace-then-ignore, total reference length > 0",
-     "witness": {"prefix": "", "suffix": ".pt", "utts": [["a", [], [0]], ["u1", [0], [0]]], "batch": 1, "id2token": False, "mode": "total", "layout": "parent", "shape": 1}},
-    {"id": "KF-C17-4", "property": "C17", "clause": "C17.cli.subset",
-     "what": "subset-torch-spect-data-dir raises FileExistsError (after linking part of the subset) when --utt-list/--utt-list-file names an existing utterance twice and files are "
-             "hard-linked (default) or symlinked; --copy silently overwrites",
-     "class": "--utt-list or --utt-list-file contains the id of an existing utterance more than once and the style is not --copy",
-     "witness": {"prefix": "", "suffix": ".pt", "crit": ["utt-list", ["u1", "u1"]], "only": True, "style": "link", "feats": [["u1", 1]], "ali": None, "ref": None}},
 ]
 KNOWN_MATCH = {
-    "KF-C17-4": lambda c, msg: "crit" in c and c["crit"][0].startswith("utt-list") and c.get("style", "link") != "copy" and "FileExistsError" in msg
-    and any(c["crit"][1].count(u) > 1 for u, _ in c["feats"]),
     "KF-C17-1": lambda c, msg: c.get("kind") == "tg" and c.get("precision") not in (None, 3) and (c.get("shift") or 10.0) < 1.0 and ("of class TextTier, expected" in msg or "came back at" in msg),
-    "KF-C17-2": lambda c, msg: c.get("kind") == "tg" and c.get("fmt", "short") == "short" and c.get("tier_sel") == ["idx", 0] and ": shape (" in msg,
-    "KF-C17-3": lambda c, msg: "batch" in c and c.get("mode", "total") == "total" and 0 in _er_ref_lens(c) and sum(_er_ref_lens(c)) > 0 and "ZeroDivisionError" in msg,
+}
+
+# witnesses of defects that have since been repaired in /repo (8cb04f8, eb0e919, 2dd0a81); enumerated first in every tier as regression cases
+REGRESSIONS = {
+    "C17.cli.roundtrip": [  # multi-tier short-form TextGrid, extracted tier not the last one
+        {"kind": "tg", "prefix": "", "suffix": ".pt", "shift": None, "fmt": "short", "fill": False, "tg_suffix": None, "tier_sel": ["idx", 0], "length": "infer",
+         "utts": [["a", "IntervalTier", [["a", 0, 20.0]], 20.0]]}],
+    "C17.cli.error_rate": [  # total rate with one empty reference
+        {"prefix": "", "suffix": ".pt", "utts": [["a", [], [0]], ["u1", [0], [0]]], "batch": 1, "id2token": False, "mode": "total", "layout": "parent", "shape": 1}],
+    "C17.cli.subset": [  # an utterance listed twice
+        {"prefix": "", "suffix": ".pt", "crit": ["utt-list", ["u1", "u1"]], "only": True, "style": "link", "feats": [["u1", 1]], "ali": None, "ref": None}],
 }
 
 M = "command_line."
@@ -1385,7 +1370,7 @@ def run_bounded(ctx):
     want = lambda name: not only or any(name.startswith(o) for o in only)
     q = ctx.quick
     if want("C17.cli.roundtrip"):
-        ctx.bounded("C17.cli.roundtrip", check_roundtrip, cases_roundtrip(ctx),
+        ctx.bounded("C17.cli.roundtrip", check_roundtrip, itertools.chain(REGRESSIONS["C17.cli.roundtrip"], cases_roundtrip(ctx)),
                     bound=("prefix in %s x suffix in %s, distractor files matching one of them only; trn: all corpora of <=2 utterances x <=2 tokens over {a,b} (+OOV with --unk-symbol), "
                            "3 tensor layouts, --swap on either side; ctm: 1-2 utterances, <=2 segments on a sub-frame grid (starts >= 1 frame apart), frame shifts %s, --wc2utt/--utt2wc/--channel; "
                            "TextGrid dirs: 7 tiers (interval with gaps / point), short+long text form, --fill-symbol, tier selection, 3 TextGrid suffixes, --infer/--feat-dir, raw-sample shift 0.0625 ms; "
@@ -1397,7 +1382,7 @@ def run_bounded(ctx):
                                                "textgrids_to_torch_token_data_dir", "torch_token_data_dir_to_textgrids", "torch_ali_data_dir_to_torch_token_data_dir",
                                                "torch_token_data_dir_to_torch_ali_data_dir", "_DirectoryDataset.__init__", "_save_transcripts_to_dir_do_work")])
     if want("C17.cli.error_rate"):
-        ctx.bounded("C17.cli.error_rate", check_error_rate, cases_error_rate(ctx),
+        ctx.bounded("C17.cli.error_rate", check_error_rate, itertools.chain(REGRESSIONS["C17.cli.error_rate"], cases_error_rate(ctx)),
                     bound="%d affix pairs (rotated over the enumeration), %d corpora of 1..%d utterances over ids {0..3}, every --batch-size 1..n+1, 6 replace/ignore rule sets, with/without --id2token, total/--per-utt/--distances, "
                           "ref+hyp under one parent or as two dirs, (R,) and (R,3) tensors, a one-sided utterance with --warn-missing; unit costs; divisor non-zero%s"
                           % ((4, 7, 4, "") if q else (16, 31, 9, "; plus 6000 seeded random corpora (<=7 utterances, lengths <=7)")),
@@ -1405,7 +1390,7 @@ def run_bounded(ctx):
                     nontrivial=lambda c: c["batch"] < len(c["utts"]) or bool(c.get("replace") or c.get("ignore")), chunk=32, budget_s=None if q else 200,
                     functions=[M + "compute_torch_token_data_dir_error_rates", M + "_load_transcripts_from_data_dir"])
     if want("C17.cli.subset"):
-        ctx.bounded("C17.cli.subset", check_subset, cases_subset(ctx),
+        ctx.bounded("C17.cli.subset", check_subset, itertools.chain(REGRESSIONS["C17.cli.subset"], cases_subset(ctx)),
                     bound="%d affix pairs, %d directories of 0..%d utterances (length ties, ali/ref missing or with extras), all 12 selection flags with n in 0..N+1 and %d ratios, lists with unknown ids, "
                           "--only, hard link/--copy/--symlink, custom sub-directory names%s" % ((4, 5, 6, 5, "") if q else (16, 6, 11, 16, "; plus 3000 seeded random directories")),
                     text="destination holds exactly the files of the requested utterances (documented order rules), byte-identical to the source, source untouched; --rand-* by count and seed-determinism",
